@@ -62,7 +62,7 @@ static int ref_accept(const polyseed_lang* l, const char* tok, const char* w) {
     char a[512], b[512];
     int na = ref_strip(tok, a, l->has_accents), nb = ref_strip(w, b, l->has_accents);
     if (na == nb && !memcmp(a, b, na)) return 1;
-    if (l->has_prefix && na >= NUM_CHARS_PREFIX && na < nb && !memcmp(a, b, na)) return 1;
+    if (l->has_prefix && na >= 4 /* property statement */ && na < nb && !memcmp(a, b, na)) return 1;
     return 0;
 }
 
